@@ -54,6 +54,11 @@ func (s *S3Proxy) getConfig(ctx context.Context, access, secret string) (aws.Con
 		config.WithRegion(s.awsRegion),
 		config.WithCredentialsProvider(creds),
 		config.WithHTTPClient(client),
+		// The streamed request bodies are not seekable: a checksum the
+		// client did not ask for cannot be computed for them without
+		// TLS (trailing checksum), and failed PutObject / UploadPart on
+		// plain http endpoints. Only add checksums when required.
+		config.WithRequestChecksumCalculation(aws.RequestChecksumCalculationWhenRequired),
 	}
 
 	if s.disableChecksum {
